@@ -64,6 +64,20 @@ def structural_trees():
     t["symlink_only_copy"] = (["d1", "d2"], ["-S"], [
         {"p": "d2/A", "k": "file", "c": lit("S")}, {"p": "d1/L", "k": "sym", "to": "../d2/A"},
         {"p": "d1/L2", "k": "sym", "to": "../d2/A"}])
+    # the symlink and its target form a sub-group that is NOT the first one: both are dropped
+    t["symlink_dropped"] = (["d1", "d2", "d3"], ["-S"], [
+        {"p": "d1/A0", "k": "file", "c": lit("S")}, {"p": "d2/T", "k": "file", "c": lit("S")},
+        {"p": "d3/L", "k": "sym", "to": "../d2/T"}, {"p": "d3/M", "k": "sym", "to": "@TREE@/d2/T"}])
+    # the retained sub-group consists of symlinks only (their target lies outside the scanned roots)
+    t["symlink_retained_outside"] = (["d1", "d2"], ["-S"], [
+        {"p": "d1/L", "k": "sym", "to": "../out/T"}, {"p": "out/T", "k": "file", "c": lit("S")},
+        {"p": "d2/sub/B", "k": "file", "c": lit("S")}, {"p": "d2/C", "k": "file", "c": lit("S")}])
+    # files between an explicit --max-prefix-size and the default prefix of a non-SSD device (16 KiB), equal up to the
+    # last byte: wrong groups from `group` would make the dedupe commands destroy content
+    t["prefix_window"] = (["r1", "r2"], ["--max-prefix-size", "4096"], [
+        {"p": "r1/a", "k": "file", "c": ["base", 12000, 1]}, {"p": "r2/b", "k": "file", "c": ["base", 12000, 1]},
+        {"p": "r1/c", "k": "file", "c": ["flip", 12000, 1, 11999]}, {"p": "r2/d", "k": "file", "c": ["flip", 12000, 1, 11999]},
+        {"p": "r2/e", "k": "file", "c": ["flip", 12000, 1, 11000]}])
     t["isolate"] = (["r1", "r2"], ["--isolate"], [
         {"p": "r1/a", "k": "file", "c": lit("I")}, {"p": "r1/s/a2", "k": "file", "c": lit("I")},
         {"p": "r2/b", "k": "file", "c": lit("I")}, {"p": "r2/b2", "k": "file", "c": lit("I")},
@@ -178,7 +192,10 @@ def evaluate(case):
         C.make_tree(sc.tree, entries)
         target = os.path.join(sc.root, "moved")
         tzenv = {"TZ": case["tz"]} if case.get("tz") else None
-        report = D.make_report(sc, ["--min", "0"] + case["gargs"], case["roots"], fmt=case["fmt"], env_extra=tzenv)
+        genv = dict(tzenv or {})
+        if case["tree"] == "s:prefix_window":
+            genv["FCLONES_VERIF_DISK_KIND"] = "unknown"
+        report = D.make_report(sc, ["--min", "0"] + case["gargs"], case["roots"], fmt=case["fmt"], env_extra=genv or None)
         rep = D.report_groups(report)
         members = set()
         for g in rep.groups:
